@@ -414,7 +414,12 @@ where
                     format!("Path expected: {path_str}"),
                 ));
             }
-            let path = Path::from_escaped_string(path_str.trim()).map_err(|e| {
+            // Strip only the indentation and the line terminator; any other white space
+            // belongs to the file name.
+            let path_str = path_str.strip_prefix("    ").unwrap();
+            let path_str = path_str.strip_suffix('\n').unwrap_or(path_str);
+            let path_str = path_str.strip_suffix('\r').unwrap_or(path_str);
+            let path = Path::from_escaped_string(path_str).map_err(|e| {
                 Error::new(
                     ErrorKind::InvalidData,
                     format!("Invalid path {path_str}: {e}"),
